@@ -605,6 +605,8 @@ def logic(op, a, b):
 
 
 def snot(a):
+    if isinstance(a, Opaque):
+        return Opaque(f"not({a.why})")
     if isinstance(a, SV):
         z = a.z
         if z.sort() == PV:
